@@ -89,7 +89,7 @@ def probe(rec: core.Recorder, shared: Shared, cid, expected: bool, rng: random.R
     """Compare the library's view of the switch with the context's own shadow value."""
     from physt.config import config
 
-    kind = rng.choice(["read", "read", "add_array", "mul_array", "mul_neg", "div_neg", "idiv_neg", "set_negative", "isub_array", "read", "add_negative", "add_negative_rebinned"])
+    kind = rng.choice(["read", "read", "add_array", "mul_array", "mul_neg", "div_neg", "idiv_neg", "set_negative", "isub_array", "read", "add_negative", "add_negative_rebinned", "scale_negative_operand"])
     with shared.rec_lock:
         rec.mon("C19.probe")
     conflict = shared.conflicting(cid, expected)
@@ -128,6 +128,19 @@ def probe(rec: core.Recorder, shared: Shared, cid, expected: bool, rng: random.R
                             neg + other
                         else:
                             other += neg
+                    elif kind == "scale_negative_operand":
+                        # a positive factor on contents that are negative already: the result has negative contents all the same
+                        neg = negative_operand()
+                        how = rng.randrange(4)
+                        if how == 0:
+                            neg / 2
+                        elif how == 1:
+                            neg * 2
+                        elif how == 2:
+                            c_ = neg.copy()
+                            c_ /= 2.0
+                        else:
+                            3 * neg
                     elif kind == "isub_array":
                         h -= np.ones(3) * 5
                     else:
